@@ -45,7 +45,7 @@ try:
     res = {}
     for c in [x for x in checks.split(",") if x]:
         t0 = time.time()
-        rc, o = run(["/venv/bin/python", "-m", "bbverif", "check", c, "--tier", tier], env={"BBVERIF_REPO": wt, "PYTHONPATH": VERIF}, cwd=VERIF, timeout=7200)
+        rc, o = run(["/venv/bin/python", "-m", "bbverif", "check", c, "--tier", tier], env={"BBVERIF_REPO": wt, "PYTHONPATH": VERIF, "BBVERIF_EVIDENCE_DIR": "/tmp/bbv_mutant_evidence", "BBVERIF_REPLAY_DIR": "/tmp/bbv_mutant_replays"}, cwd=VERIF, timeout=7200)
         mech = [ln.strip()[:260] for ln in o.split("\n") if ln.startswith("  mechanism=")]
         res[c] = {"rc": rc, "mechanisms": mech[:4], "inconclusive": [ln[:200] for ln in o.split("\n") if ln.startswith("INCONCLUSIVE")][:2], "s": round(time.time() - t0)}
     out["checks"] = res
